@@ -86,3 +86,13 @@ contract(A, '_flatten_per_cluster', props=['C07', 'C17'], params={'per_cluster':
     ensures=[('sorted-without-repetition', 'all(result[a] < result[b] for a in range(len(result)) for b in range(a + 1, len(result)))'),
              ('only-members-of-a-group', 'all(any(any(dvals(per_cluster)[k][j] == result[i] for j in range(len(dvals(per_cluster)[k]))) for k in range(len(dvals(per_cluster)))) for i in range(len(result)))'),
              ('every-member-of-every-group', 'all(all(any(result[i] == dvals(per_cluster)[k][j] for i in range(len(result))) for j in range(len(dvals(per_cluster)[k]))) for k in range(len(dvals(per_cluster))))')])
+
+# ---- the model's per-cluster and per-template spike queries "agree with them" --------------------------------------------------------------
+M7 = 'phylib/io/model.py'
+from pyvc.contract import declare_class
+declare_class('TemplateModel', M7)
+for _q, _f, _p in (('get_cluster_spikes', 'spike_clusters', 'cluster_id'), ('get_template_spikes', 'spike_templates', 'template_id')):
+    contract(M7, 'TemplateModel.' + _q, props=['C07'], params={_p: 'int'}, fields={'spike_clusters': 'arr[int]', 'spike_templates': 'arr[int]'}, result='arr[int]',
+        ensures=[('increasing-spike-indices', 'all(0 <= result[a] and result[a] < len(self.%s) for a in range(len(result))) and all(result[a] < result[b] for a in range(len(result)) for b in range(a + 1, len(result)))' % _f),
+                 ('only-spikes-carrying-the-id', 'all(self.%s[result[a]] == %s for a in range(len(result)))' % (_f, _p)),
+                 ('every-spike-carrying-the-id', 'all(implies(self.%s[s] == %s, any(result[a] == s for a in range(len(result)))) for s in range(len(self.%s)))' % (_f, _p, _f))])
